@@ -69,6 +69,9 @@ pub fn run_sizes(cfg: &SorterCfg, sizes: &[usize], finish: bool) -> Result<Sorte
             let mut out = Vec::new();
             while let Some((k, v)) = it.next().map_err(|e| e.to_string())? {
                 out.push((k.to_vec(), v.to_vec()));
+                if out.len() > inserted.len() + 8 {
+                    return Err("the output stream does not terminate".into());
+                }
             }
             compare_output(&out, &model_output(&inserted), cfg.unstable)?;
         }
